@@ -15,6 +15,8 @@ def plan(prop, tier, models):
                 b = [(None, 30)] if threads <= 3 else [(2, 30)]
             elif mid.startswith("c15-timestamps"):
                 b = [(3, 30)] if threads <= 4 else [(2, 30)]
+            elif mid.startswith("c15-protocol"):
+                b = [(2, 30)]
             elif mid.startswith("c15-frontier"):
                 b = [(2, 30)]
             else:  # c16
@@ -26,6 +28,8 @@ def plan(prop, tier, models):
                 b = [(None, 600)] if threads <= 3 else [(4, 900)]
             elif mid.startswith("c15-timestamps"):
                 b = [(4, 900)]
+            elif mid.startswith("c15-protocol"):
+                b = [(3, 300)]
             elif mid.startswith("c15-frontier"):
                 b = [(3, 900)]
             else:
